@@ -445,7 +445,7 @@ def shard(ctx):
                                 'spec': spec})
             ctx.stratum('sweep shapes')
     # ---- random -----------------------------------------------------------------
-    for i in ctx.indices(ctx.pick(5000, 150000)):
+    for i in ctx.indices(ctx.pick(5000, 700000)):
         rng = ctx.rng('rand', i)
         system = rng.choice(['topdown', 'inorder', 'gap', 'gap'])
         n = rng.choice([1, 1, 2, 3, 4, 6, 9, 14]) if rng.random() < 0.7 \
@@ -467,7 +467,7 @@ def shard(ctx):
             ctx.sample({'system': system,
                         'tree': model.show(model.from_spec(spec['root']), '')})
     # ---- pipeline stratum: real negra_mark_heads + binarize first ---------------
-    for i in ctx.indices(ctx.pick(1500, 40000)):
+    for i in ctx.indices(ctx.pick(1500, 200000)):
         rng = ctx.rng('pipe', i)
         system = rng.choice(['topdown', 'gap'])
         p2 = gen.Pools(edges=['HD', 'NK', 'SB', '--'])
@@ -488,10 +488,10 @@ def shard(ctx):
                 raise
         ctx.stratum('pipeline ' + system)
     # ---- writer + command line --------------------------------------------------
-    for i in ctx.indices(ctx.pick(200, 4000)):
+    for i in ctx.indices(ctx.pick(200, 15000)):
         rng = ctx.rng('writer', i)
         run_writer(ctx, rng, pools)
-    for i in ctx.indices(ctx.pick(48, 900)):
+    for i in ctx.indices(ctx.pick(48, 3000)):
         run_cli(ctx, ctx.rng('cli', i), i)
 
 
